@@ -40,6 +40,12 @@ def getKey (m : List (Name × Rat)) (k : Name) : Except Err Rat :=
 /-- `variables | {var: value}` -/
 def setState (vars : Row) (k : Name) (v : Rat) : Row := omInsert vars k v
 
+/-- the flux vector the coefficients are scaled with (`if normalized: ... get_fluxes(variables)`);
+    unused — here the upper fluxes — otherwise -/
+def baseFlux (normalized : Bool) (c : Content) (vars : Row) (t : Rat) (unused : List (Name × Rat)) :
+    Except Err (List (Name × Rat)) :=
+  if normalized then getFluxes c (some vars) t else .ok unused
+
 /-! ### `variable_elasticities`: no model state is written -/
 
 def varElasticityOf (c : Content) (vars : Row) (t : Rat) (normalized : Bool) (d : Rat) (var : Name) :
@@ -47,7 +53,7 @@ def varElasticityOf (c : Content) (vars : Row) (t : Rat) (normalized : Bool) (d 
   let old ← getKey vars var
   let upper ← getFluxes c (some (setState vars var (old * (1 + d)))) t
   let lower ← getFluxes c (some (setState vars var (old * (1 - d)))) t
-  let base ← if normalized then getFluxes c (some vars) t else pure upper
+  let base ← baseFlux normalized c vars t upper
   pure (zip3 upper lower base (coef normalized d old))
 
 /-- `variables = model.get_initial_conditions() if variables is None else variables` -/
@@ -72,7 +78,7 @@ def parElasticityOf (vars : Row) (t : Rat) (normalized : Bool) (d : Rat) (c : Co
   let c2 ← updatePars c1 [(par, old * (1 - d))]
   let lower ← getFluxes c2 (some vars) t
   let c3 ← updatePars c2 [(par, old)]
-  let base ← if normalized then getFluxes c3 (some vars) t else pure upper
+  let base ← baseFlux normalized c3 vars t upper
   pure (c3, zip3 upper lower base (coef normalized d old))
 
 def foldCols (f : Content → Name → Except Err (Content × Column)) :
